@@ -133,9 +133,14 @@ def run(ctx):
                                         q, pat, corr.flag_names(fv), got_pure, got_full, got_conc, want_pure, want_conc),
                                         {'path': q, 'pattern': pat, 'flags': corr.flag_names(fv), 'tree': spec, 'is_dir': isdir})
                                     break
-                # errors
-                for thunk, what in ((lambda: list(root.glob('/abs')), 'glob absolute'), (lambda: list(root.rglob('/abs/*')), 'rglob absolute'),
-                                    (lambda: list(root.glob(['ok', '/abs'])), 'glob list with absolute')):
+                # errors - the same for every path object naming an entry of the tree: the root, a directory, a regular file, a link
+                objs = [root] + [root.joinpath(e_) for e_ in T.entries()[:6]]
+                err_cases = []
+                for ob in objs:
+                    err_cases += [(lambda ob=ob: list(ob.glob('/abs')), 'glob absolute on %r' % os.path.relpath(str(ob), T.root)),
+                                  (lambda ob=ob: list(ob.rglob('/abs/*')), 'rglob absolute on %r' % os.path.relpath(str(ob), T.root)),
+                                  (lambda ob=ob: list(ob.glob(['ok', '/abs'])), 'glob list with absolute on %r' % os.path.relpath(str(ob), T.root))]
+                for thunk, what in err_cases:
                     evals += 1
                     try:
                         thunk()
